@@ -57,12 +57,15 @@ ASSUMPTIONS = [
     '(Model/PyMini.v), the encoding of values and what Model/PrimsRender.v says str, max, rjust, ljust, strftime, as_tuple and '
     'the alignment format specs do (built from Render.v\'s own string functions); self.format(value) inside '
     'ObjectRenderer.update is an opaque callable returning a str',
-    'translator tie, top level: render_rows (C16_source_render_rows, complete) and the priming-loop body of render_csv '
-    '(C16_source_render_csv_prime_row_partial) are translated by TopTranslator (rules T1-T7 of harness/vf/src_render.py: zip(*e) as '
+    'translator tie, top level: render_rows (C16_source_render_rows), render_csv (C16_source_render_csv: the file is reached '
+    'only through csv.writer, whose content is the text written so far; csv.writer = Render.csv_record; calling render_rows = '
+    'interpreting its translation; _get_renderer builds a renderer that has seen nothing) and the first six statements of '
+    'render_text up to the column widths (C16_source_render_text_widths_partial; style selection, header line, row loop and '
+    'rules are not tied by translation) are translated by TopTranslator (rules T1-T7 of harness/vf/src_render.py: zip(*e) as '
     'transposition, yield from, loops that mutate the items of a local list in place rebuilt as a new list - exact when the items '
     'are not aliased elsewhere, which holds for the freshly built cells / renderers lists); a column renderer is modelled by its '
     'datatype, its RenderContext and the values update() has seen, format/prepare being Render.st_format/st_width of col_prepare '
-    'over them (Model/PrimsRender.v, section Top); render_text is not tied by translation (correspondence only)',
+    'over them (Model/PrimsRender.v, section Top)',
 ]
 
 
